@@ -7,7 +7,8 @@ From Coq Require Import String.
 From CCT Require Import Prelude Hex Num Time Formats PySrc.
 From CCT.Gen Require Source.
 From CCT.proofs Require Import HexFacts SigFacts SourceFacts SourceSigFacts JsonFacts.
-From CCT.proofs Require SourceJsonFacts.
+From CCT.proofs Require SourceJsonFacts SourceLoadFacts.
+From CCT Require JsonParse.
 
 (* the functions below are in the translated program, and its call graph has no cycle (so run_prog reaches every callee) *)
 Theorem C15src_translated :
@@ -91,6 +92,9 @@ Proof. exact outside_sorted_meaning. Qed.
 Theorem C15src_json_values_inside : forall v, jdom v = true -> outside_sorted v = false.
 Proof. exact SourceJsonFacts.jdom_inside_sorted. Qed.
 
+Theorem C15src_loaded_values_inside : forall b v, JsonParse.load_file b = Ok v -> outside_sorted v = false.
+Proof. exact SourceLoadFacts.loaded_inside_sorted. Qed.
+
 (* signature entries as the text of common.py decides them: precisely the raw or the OpenPGP shape *)
 Theorem C15src_signature_entry_grammar : forall v, outside_sorted v = false ->
   (run_prog Source.program "is_signature" [v] = Ok (VBool true) <-> raw_shape v \/ gpg_shape v).
@@ -132,6 +136,7 @@ Print Assumptions C15src_is_signature.
 Print Assumptions C15src_checkformat_any_signature.
 Print Assumptions C15src_outside_sorted_meaning.
 Print Assumptions C15src_json_values_inside.
+Print Assumptions C15src_loaded_values_inside.
 Print Assumptions C15src_signature_entry_grammar.
 Print Assumptions C15src_gpg_signature_entry_grammar.
 Print Assumptions C15src_hex_key_grammar.
